@@ -206,6 +206,7 @@ Theorem build_from_data_meets_O2 data a b :
     length W = S (Z.to_nat (fold_right Z.max 0 data)) /\
     Forall (fun w => 0 <= w <= 11) W /\ enc_weights codes = W /\
     (forall s, In s data -> 0 < nth (Z.to_nat s) W 0) /\
+    (exists M, Forall (fun w => 0 <= w <= M) W /\ 1 <= last W 0 <= M /\ M <= 11 /\ 0 < kraft (removelast W) /\ kraft W = 2 ^ M /\ enc_build_from_weights W = ROk codes) /\
     forall h desc ft, let payload := desc ++ huf4_bytes (code_fn codes) data in
       read_weights h payload = ROk (removelast W, ft, zlen desc) -> zlen payload < zlen data ->
       exists t, lit_ok h data (huf_lit_header 2 (zlen data) (zlen payload)) payload t.
@@ -254,6 +255,31 @@ Proof.
   { apply enc_weights_are_the_weights; [exact HWr| |exact Ecodes].
     pose proof (shape_has_one _ sh (conj Hn2 Hn256) Esh) as H1. apply (Permutation_in _ (Permutation_sym P)) in H1. apply filter_In in H1. tauto. }
   split; [exact Hpos|].
+  split.
+  { exists (Z.log2 (kraft W)).
+    assert (HWne : W <> []) by (intros ->; cbn [length] in LW; lia).
+    assert (Hpow : is_pow2z (kraft W) = true).
+    { unfold enc_build_from_weights in Ecodes. destruct (is_pow2z (kraft W)); [reflexivity|cbn [negb] in Ecodes; discriminate]. }
+    unfold is_pow2z in Hpow. apply andb_prop in Hpow as [_ Hp2].
+    assert (Hlw : In (last W 0) W) by (rewrite (app_removelast_last 0 HWne) at 2; apply in_or_app; right; left; reflexivity).
+    rewrite Forall_forall in HWr. pose proof (HWr _ Hlw) as Hl1.
+    split; [apply Forall_forall; exact HWr|]. split; [lia|]. split; [rewrite KW; exact H11|]. split; [|split; [lia|exact Ecodes]].
+    (* one of the two symbols is not the largest byte: its weight is written *)
+    assert (exists s, In s data /\ s < mx) as (s & Hs & Hlt).
+    { pose proof (Hle a Ha). pose proof (Hle b Hb). destruct (Z.eq_dec a mx); [exists b; split; [exact Hb|lia]|exists a; split; [exact Ha|lia]]. }
+    pose proof (Hle s Hs) as Hs'. pose proof (Hpos s Hs) as Hp.
+    assert (Hin : In (nth (Z.to_nat s) W 0) (removelast W)).
+    { rewrite (app_removelast_last 0 HWne) in Hp at 1. rewrite (app_removelast_last 0 HWne) at 1.
+      assert (Lr : length (removelast W) = Z.to_nat mx).
+      { rewrite (app_removelast_last 0 HWne) in LW at 1. rewrite app_length in LW. cbn [length] in LW. lia. }
+      rewrite app_nth1 by lia. apply nth_In. lia. }
+    clear - Hin Hp. revert Hin. generalize (nth (Z.to_nat s) W 0) Hp. intros w Hw. induction (removelast W) as [|x t IH]; intros Hin; [contradiction|].
+    unfold kraft in *. cbn [fold_right].
+    assert (0 <= fold_right (fun w acc => (if 0 <? w then 2 ^ (w - 1) else 0) + acc) 0 t).
+    { clear. induction t as [|y u IHu]; cbn [fold_right]; [lia|]. destruct (0 <? y); [pose proof (Z.pow_nonneg 2 (y - 1) ltac:(lia))|]; lia. }
+    destruct Hin as [->|Hin].
+    - destruct (Z.ltb_spec 0 w); [|lia]. pose proof (Z.pow_pos_nonneg 2 (w - 1) ltac:(lia) ltac:(lia)). lia.
+    - specialize (IH Hin). destruct (0 <? x); [pose proof (Z.pow_nonneg 2 (x - 1) ltac:(lia))|]; lia. }
   intros h desc ft. apply Hall; [|exact Hlen].
   apply Forall_forall. intros s Hs. pose proof (Hle s Hs) as Hs'.
   assert (LR : length (removelast W) = Z.to_nat mx).
